@@ -47,6 +47,7 @@ def configs(tier):
         for r in (0, 3):
             out.append(dict(group="ped-line", nA=nA, report=r))
     # value formatting: every 3-decimal value of a range, rendered alone and inside arrays, must read back as itself
+    out.append(dict(group="gt-text"))
     step = 400 if tier == "quick" else 200
     for scale in (1, 1000):
         for lo in range(-1200, 1201, step):
@@ -72,7 +73,7 @@ def run_config(c, col):
         else:
             E.cfg.concrete_floats = True
             try:
-                {"asm-line": _run_asm_line, "call-line": _run_call_line, "exact-line": _run_exact_line, "ped-line": _run_ped_line, "vcfstr": _run_vcfstr}[c["group"]](c, col)
+                {"asm-line": _run_asm_line, "call-line": _run_call_line, "exact-line": _run_exact_line, "ped-line": _run_ped_line, "vcfstr": _run_vcfstr, "gt-text": _run_gt_text}[c["group"]](c, col)
             finally:
                 E.cfg.concrete_floats = False
     col.functions |= set(prof.names())
@@ -650,6 +651,42 @@ def _run_vcfstr(c, col):
             col.ok("vcfstr renders k/1000*%d (alone, inside arrays, next to nan, as float / list / float32) so that it reads back as the value rounded to 3 decimals" % scale)
 
 
+# ------------------------------------------------------------------ GT text for records with many alleles
+
+
+def _run_gt_text(c, col):
+    """format_sample_field / format_record: the GT text is the allele numbers themselves ('.' for missing), also for two- and
+    three-digit allele numbers (records with ten or more ALT haplotypes), next to integer, float and array fields"""
+    rec = E.load("mchap.io.vcf.records")
+    site = "mchap.io.vcf.records.format_sample_field"
+    ALS = [-1, 0, 9, 10, 23, 100]
+
+    def body(ctx):
+        gts = []
+        for smp in range(2):
+            g = sorted(ALS[int(E.SymInt(E.fresh_int(ctx, "a%d_%d" % (smp, i), 0, len(ALS) - 1)))] for i in range(2))
+            gts.append([x for x in g if x >= 0] + [x for x in g if x < 0])
+        txt = rec.format_sample_field(GT=[rnp.array(g) for g in gts], DP=[7, 12], GPM=[0.5, rnp.nan], ACP=[rnp.array([1.0, 2.5]), rnp.array([10.0, 0.0])])
+        return gts, txt
+
+    first = True
+    for pr in E.explore(body, stats=col.stats):
+        if pr.exc is not None:
+            col.fail(site, "exception", shape=dict(prog="gt-text"), witness=dict(exc=repr(pr.exc)), desc="raised %r" % (pr.exc,))
+            continue
+        col.path()
+        if first:
+            col.reachable(pr.ctx)
+            first = False
+        gts, txt = pr.value
+        f = txt.split("\t")
+        want = ["GT:DP:GPM:ACP"] + ["/".join("." if a < 0 else str(a) for a in g) + tail for g, tail in zip(gts, (":7:0.5:1,2.5", ":12:.:10,0"))]
+        if f != want:
+            col.fail(site, "gt-text", shape=dict(prog="gt-text"), witness=dict(gts=gts, text=txt, model=E.model_dict(E.prove(pr.ctx, False).model)), desc="sample columns %r, expected %r" % (f, want))
+        else:
+            col.ok("GT text == allele numbers joined by '/', '.' for missing, for allele numbers up to 100; other fields unchanged")
+
+
 # ------------------------------------------------------------------ call-exact lines (the real exact code on concrete reads)
 
 # (read, allele) probabilities are strictly positive: the CLI refuses a zero error rate (same precondition as C01/C03)
@@ -829,7 +866,7 @@ def replay(v):
     if c["group"] == "summary":
         return _replay_summary(c, m)
     real = {"mchap.application.assemble": None, "mchap.application.call": None, "mchap.application.call_exact": None, "mchap.application.call_pedigree": None,
-            "mchap.io.vcf.util": None, "mchap.application.baseclass": None, "mchap.io.vcf.formatfields": None,
+            "mchap.io.vcf.util": None, "mchap.io.vcf.records": None, "mchap.application.baseclass": None, "mchap.io.vcf.formatfields": None,
             "mchap.io.vcf.infofields": None, "mchap.io.vcf.columns": None, "mchap.assemble.classes": None, "mchap.calling.classes": None,
             "mchap.application.arguments": None, "mchap.io.loci": None}
     for name in real:
@@ -854,7 +891,7 @@ def replay(v):
     res = {}
     try:
         col = _OneShot()
-        {"asm-line": _run_asm_line, "call-line": _run_call_line, "exact-line": _run_exact_line, "ped-line": _run_ped_line, "vcfstr": _run_vcfstr}[c["group"]](c, col)
+        {"asm-line": _run_asm_line, "call-line": _run_call_line, "exact-line": _run_exact_line, "ped-line": _run_ped_line, "vcfstr": _run_vcfstr, "gt-text": _run_gt_text}[c["group"]](c, col)
         res = col
     finally:
         E.load = saved_load
